@@ -50,6 +50,7 @@ def is_nontrivial(ops):
 
 
 FNS = ["field_call", "srf_call", "krige_call", "condsrf_call", "transform", "set_condition",
+       "extdrift", "mesh_call", "krige_fit",
        "vario_estimate", "vario_axis", "standard_bins", "fit_variogram", "normalizer",
        "mean_norm_trend", "array_transform", "model_funcs"]
 TRANSFORMS = ["binary", "discrete", "boxcox", "zinnharvey", "normal_force_moments",
@@ -66,7 +67,17 @@ def gen_config(rng):
     dim = rng.choice([1, 2, 2, 3])
     model = cm.gen_model_spec(rng, dim, name=rng.choice(["Gaussian", "Exponential"]),
                               nugget=rng.choice([0.0, 0.0, 0.1]), rotate=True)
+    geo = rng.random() < 0.2
+    if geo:
+        # spatio-temporal lat-lon model: positions are (lat, lon, time)
+        dim = 3
+        model = {"cls": rng.choice(["Gaussian", "Exponential"]), "dim": 4,
+                 "var": rng.choice(cm.VAR_GRID), "len_scale": rng.choice([0.3, 0.7, 1.0]),
+                 "anis": [1.0, 1.0, rng.choice([0.25, 0.5, 1.0, 1.8])], "angles": [0.0] * 6,
+                 "nugget": rng.choice([0.0, 0.1]), "opt": {}, "latlon": True, "temporal": True,
+                 "geo_scale": rng.choice([1.0, 57.29577951308232])}
     cfg = {
+        "geo": geo,
         "n_ops": rng.randint(3, 12), "dim": dim, "model": model,
         "mean": rng.choice([None, 0.0, 2.0, 2.0, "lin"]),
         "trend": rng.choice([None, None, 0.7, "lin"]),
@@ -260,7 +271,7 @@ class Machine:
         elif fn == "vario_estimate":
             op["variant"] = rng.choice(["plain", "bins", "latlon", "latlon_bins", "masked",
                                         "directional", "normed", "structured", "sampled",
-                                        "stacked"])
+                                        "stacked", "no_data", "no_data"])
         elif fn == "vario_axis":
             op["variant"] = rng.choice(["plain", "masked", "nan"])
         elif fn == "fit_variogram":
@@ -316,6 +327,8 @@ class Machine:
         n = n or op["n"]
         d = self.dim
         lay = op["layout"]
+        if self.cfg.get("geo") and (lo, hi) == (-3.0, 3.0):
+            lo, hi = -60.0, 60.0  # degrees / time units
         if mesh == "structured":
             per = max(2, min(n, {1: 6, 2: 3, 3: 2}[d]))
             axes = []
@@ -442,6 +455,75 @@ class Machine:
             kr.set_condition(cond_err=self.alloc("cond_err", self._vals(rs, (n,), 0.0, 0.1),
                                                  lay, site))
 
+    def _c_extdrift(self, op, rs, site):
+        """External drift kriging: drift arrays at the conditions and at the targets."""
+        if self.cfg.get("geo"):
+            raise Inapplicable("cartesian example")
+        lay = op["layout"]
+        d = self.dim
+        n = 5
+        cpos = self.alloc("cond_pos", self._vals(rs, (d, n), -3, 3), lay, site)
+        cval = self.alloc("cond_val", self._vals(rs, (n,), 0.5, 3.0), lay, site)
+        cdrift = self.alloc("ext_drift", self._vals(rs, (n,), -1, 1), lay, site)
+        kr = gs.krige.ExtDrift(cm.build_model(self.cfg["model"]), cpos, cval, cdrift)
+        m = op["n"]
+        pos = self.alloc("pos", self._vals(rs, (d, m), -3, 3), lay, site)
+        tdrift = self.alloc("ext_drift", self._vals(rs, (m,), -1, 1), lay, site)
+        res = kr(pos, ext_drift=tdrift, chunk_size=rs.choice([None, 2]))
+        for r in res:
+            self.track(r, "returned:extdrift", site, "result")
+        if rs.random() < 0.5:
+            cs = gs.CondSRF(kr, seed=3, mode_no=6)
+            r2 = cs(pos, ext_drift=tdrift)
+            self.track(r2, "returned:condsrf_extdrift", site, "result")
+
+    def _c_mesh_call(self, op, rs, site):
+        """Generation on a meshio mesh (mesh.points is a caller array) with point volumes."""
+        if self.cfg.get("geo"):
+            raise Inapplicable("cartesian example")
+        import meshio
+        d = self.dim
+        n = max(3, op["n"])
+        pts = np.zeros((n, 3))
+        pts[:, :d] = self._vals(rs, (n, d), -3, 3)
+        pts = self.alloc("mesh.points", pts, "alias", site)
+        cells = [("line", np.array([[i, i + 1] for i in range(n - 1)]))]
+        self.track(cells[0][1], "mesh.cells", site, "caller")
+        mesh = meshio.Mesh(pts, cells)
+        self.track(mesh.points, "mesh.points", site, "caller")
+        direction = ["x", "xy", "xyz"][d - 1]
+        where = rs.choice(["points", "centroids"])
+        kw = {}
+        if rs.random() < 0.5:
+            cnt = n if where == "points" else n - 1
+            lay = op["layout"] if op["layout"] != "list" else "alias"  # documented: ndarray
+            kw["point_volumes"] = self.alloc("point_volumes", self._vals(rs, (cnt,), 0.1, 2.0),
+                                             lay, site)
+            self.srf.upscaling = "coarse_graining"
+        try:
+            res = self.srf.mesh(mesh, points=where, direction=direction, name="f", seed=5,
+                                **kw)
+        finally:
+            self.srf.upscaling = "no_scaling"
+        self._store_targets("srf", True, ["field"])
+        self.track(res, "returned:mesh", site, "result")
+
+    def _c_krige_fit(self, op, rs, site):
+        """Kriging setup that fits normalizer / variogram to the given conditions."""
+        if self.cfg.get("geo"):
+            raise Inapplicable("cartesian example")
+        lay = op["layout"]
+        d = self.dim
+        n = 12
+        cpos = self.alloc("cond_pos", self._vals(rs, (d, n), -4, 4), lay, site)
+        cval = self.alloc("cond_val", self._vals(rs, (n,), 0.5, 3.0), lay, site)
+        model = gs.Exponential(dim=d, var=1.0, len_scale=2.0)
+        try:
+            gs.krige.Ordinary(model, cpos, cval, normalizer=gs.normalizer.BoxCox(),
+                              fit_normalizer=rs.random() < 0.7, fit_variogram=rs.random() < 0.7)
+        except (ValueError, RuntimeError):
+            self.ctx.probe("krige_fit_refused")
+
     def _c_vario_estimate(self, op, rs, site):
         v = op["variant"]
         lay = op["layout"]
@@ -464,6 +546,11 @@ class Machine:
             pos, shape = self._pos(op, rs, site, "unstructured", n=n)
             mesh = "unstructured"
         fvals = self._vals(rs, shape, 0.5, 3.0)
+        if v == "no_data":
+            marker = rs.choice([-999.0, 0.0, 1.0])
+            fvals.flat[rs.randrange(fvals.size)] = marker
+            fvals.flat[0] = marker
+            kw["no_data"] = marker
         if v == "stacked":
             field = self.alloc("field", np.array([fvals, fvals * 0.5 + 1]), lay, site)
         else:
@@ -534,8 +621,10 @@ class Machine:
         lay = op["layout"]
         m = cm.build_model(self.cfg["model"])
         x = np.linspace(0.2, 6.0, 8)
+        if self.cfg.get("geo"):
+            x = np.linspace(0.05, 2.5, 8) * self.cfg["model"]["geo_scale"]
         kw = {}
-        if v == "directional" and self.dim > 1:
+        if v == "directional" and self.dim > 1 and not self.cfg.get("geo"):
             y = np.array([m.vario_axis(x, axis=i) for i in range(self.dim)])
         else:
             y = m.variogram(x)
@@ -608,8 +697,11 @@ class Machine:
     def _c_model_funcs(self, op, rs, site):
         m = self.model
         meth = op["method"]
+        if self.cfg.get("geo") and meth in ("cov_spatial", "vario_spatial", "vario_axis"):
+            raise Inapplicable("cartesian helper on a lat-lon model")
         if meth in ("isometrize", "anisometrize", "cov_spatial", "vario_spatial"):
-            arg = self.alloc("pos", self._vals(rs, (self.dim, op["n"]), -3, 3), op["layout"],
+            rows = m.dim if meth == "anisometrize" else self.dim
+            arg = self.alloc("pos", self._vals(rs, (rows, op["n"]), -3, 3), op["layout"],
                              site)
         else:
             arg = self.alloc("lags", self._vals(rs, (op["n"],), 0.0, 5.0), op["layout"], site)
